@@ -218,6 +218,13 @@ func firstDiff(a, b histResult) string {
 }
 
 func checkC01(rc *RunCtx) {
+	// node-local state of the proposal handler (worker 0 only; small enumeration)
+	if (rc.Replay == nil && rc.Worker == 0) || (rc.Replay != nil && rc.Replay.Scenario == "stable-valset") {
+		c17RunMode(rc, mkC17World(0), true)
+		if rc.Replay != nil {
+			return
+		}
+	}
 	adversarial := func() func() time.Time {
 		t := time.Date(2099, 1, 1, 0, 0, 0, 0, time.UTC)
 		return func() time.Time { t = t.Add(-37 * time.Hour); return t }
